@@ -20,6 +20,9 @@
 (* instruction-pointer write is a jump, otherwise execution falls through. *)
 (***************************************************************************)
 EXTENDS RV, Interval, TraceKit
+\* which aspect of a step is judged: "state" (C03, C05: reports and machine state; the provider's
+\* answers are taken in whatever was asked) or "asks" (C04: the provider discipline)
+CONSTANT Aspect
 
 VARIABLES sh, l, j, bad
 vars == <<sh, l, j, bad>>
@@ -163,8 +166,6 @@ JudgeStepRv(ev, st) ==
             ELSE IF ev.err THEN Pass(st) ELSE Fail("noerror", "step fails outside decoded instructions", ev.rep, st))
     ELSE IF ev.err THEN Fail("steperror", "step succeeds at a decoded instruction", "error", st)
     ELSE Let1(AskProblem(ev, st), LAMBDA ap :
-      IF ap.why # "" THEN Fail(ap.why, "only unknown state is asked for, once", ap.got, WithAnswers(ev, st))
-      ELSE
       Let1(WithAnswers(ev, st), LAMBDA s1 :
       Let1(WBits(WordAt(st.image, off)), LAMBDA wb :
       Let1(Decode(st.variant, HasM(st), HasA(st), wb), LAMBDA name :
@@ -182,6 +183,8 @@ JudgeStepRv(ev, st) ==
                             ELSE IF r.rd # 0 THEN RSet(s1.regs, XName(r.rd), r.rdv) ELSE s1.regs,
                             IPKey, Adapt(r.ip, 8)),
               !.mem = IF Len(r.mw) = 0 THEN s1.mem ELSE MPut(s1.mem, "memory", r.mw[1].a, r.mw[1].b, FALSE)], LAMBDA s2 :
+        IF Aspect = "asks" THEN (IF ap.why # "" THEN Fail(ap.why, "only unknown state is asked for, once", ap.got, s2) ELSE Pass(s2))
+        ELSE
         \* the report of the step
         Let1(MemReadOf(name, wb, m, W(st)), LAMBDA mr :
         \* reads that cannot influence any result are unobservable and need not be reported:
@@ -234,13 +237,12 @@ JudgeStepAbs(ev, st) ==
       IF ds = {} THEN (IF ev.err THEN Pass(st) ELSE Fail("noerror", "step fails outside instructions", ev.regsa, st))
       ELSE IF ev.err THEN Fail("steperror", "step succeeds at an instruction", "error", st)
       ELSE Let1(AskProblem(ev, st), LAMBDA ap :
-        IF ap.why # "" THEN Fail(ap.why, "only unknown state is asked for, once", ap.got, WithAnswers(ev, st))
-        ELSE
         Let1(WithAnswers(ev, st), LAMBDA s1 :
         Let1(st.layout[CHOOSE i \in ds : TRUE], LAMBDA d :
         Let1(EvalAll(d.nodes, [regs |-> RegEnv(s1.regs), mem |-> MemEnv(s1.mem, MemKeysOf(s1, d))]), LAMBDA vals :
         Let1(ApplyEffs(d, vals, s1, OffAddr(st, off + d.len), OffAddr(st, d.orig + d.len)), LAMBDA s2 :
-          IF KvSet(ev.regsa) # RAsSet(s2.regs)
+          IF Aspect = "asks" THEN (IF ap.why # "" THEN Fail(ap.why, "only unknown state is asked for, once", ap.got, s2) ELSE Pass(s2))
+          ELSE IF KvSet(ev.regsa) # RAsSet(s2.regs)
             THEN Fail("regs", RAsSet(s2.regs) \ KvSet(ev.regsa), KvSet(ev.regsa) \ RAsSet(s2.regs), s2)
           ELSE Pass(s2))))))))
 
